@@ -330,8 +330,16 @@ struct ChunkFooter {
 /// For the canonical empty chunk to be `static`, its type must be `Sync`, which
 /// is the purpose of this wrapper type. This is safe because the empty chunk is
 /// immutable and never actually modified.
-#[repr(transparent)]
+///
+/// Its address doubles as the bump pointer of every arena that has not yet
+/// allocated a chunk, so it must be aligned to `CHUNK_ALIGN` (the largest
+/// supported `MIN_ALIGN`), not just to `align_of::<ChunkFooter>()`.
+#[repr(C, align(16))]
 struct EmptyChunkFooter(ChunkFooter);
+
+const _EMPTY_CHUNK_ALIGN_ASSERTION: () = {
+    assert!(mem::align_of::<EmptyChunkFooter>() >= CHUNK_ALIGN);
+};
 
 unsafe impl Sync for EmptyChunkFooter {}
 
